@@ -20,6 +20,8 @@ HooksOf(m) ==
   CASE m \in {"User", "Pet"} -> {"BeforeSave", "BeforeCreate", "AfterCreate", "BeforeUpdate", "AfterUpdate", "AfterSave",
                                   "BeforeDelete", "AfterDelete", "AfterFind"}
     [] m = "Profile" -> {"BeforeSave", "BeforeCreate", "AfterCreate", "AfterSave", "AfterFind", "BeforeDelete", "AfterDelete"}
+    [] m = "Memo"  -> {"AfterCreate", "AfterUpdate", "AfterSave", "AfterDelete", "AfterFind"}      \* only After* hooks
+    [] m = "Draft" -> {"BeforeSave", "BeforeCreate", "BeforeUpdate", "BeforeDelete"}                \* only Before* hooks
     [] OTHER -> {"BeforeSave", "BeforeCreate", "AfterCreate", "AfterSave", "AfterFind"}
 
 \* documented order of the hooks of one record, per operation kind
